@@ -2,7 +2,7 @@
    For every encoder X and ALL arguments:   run ast_X (the arguments as values) = Model.Requests.encode_X arguments,
    i.e. the term the translator must produce from the source denotes the hand-written model the C04 theorems are about. *)
 From Coq Require Import String Lia.
-From AV Require Import Base.Util Model.Prim Model.Crc Model.MsgSet Model.Requests Model.EncDSL Model.EncAst
+From AV Require Import Base.Util Model.Prim Model.Crc Model.MsgSet Model.Requests Model.EncDSL Model.EncDSLV Model.EncAst
      Proofs.ReqParseGroup Proofs.ReqParseProducer.
 Open Scope string_scope.
 Open Scope list_scope.
@@ -276,10 +276,6 @@ Proof.
 Qed.
 
 (* ================================================================== the clocked part: messages, message sets, Produce *)
-Definition msg_val (m : message) : val :=
-  VRec [("magic", VInt (m_magic m)); ("attributes", VInt (m_attr m)); ("key", VStr (m_key m)); ("value", VStr (m_value m));
-        ("timestamp", match m_ts m with Some t => VInt t | None => VNone end)].
-
 Lemma msg_of_msg_val m : msg_of_val (msg_val m) = Some m.
 Proof. destruct m as [mg at_ k v [t|]]; reflexivity. Qed.
 
